@@ -44,22 +44,45 @@ def variants(data, tier, dense):
 
 
 def run_case(case):
-    fmt, sname, mname, mdata, bname, bdata, main_tree, bak_tree = case
+    fmt, sname, mname, mdata, bname, bdata, main_tree, bak_tree = case[:8]
+    style = case[8] if len(case) > 8 else "absolute"
     install_shims()
     d = os.path.join(base_dir(), "c13")
     shutil.rmtree(d, ignore_errors=True)
+    shutil.rmtree(d + "-link", ignore_errors=True)
+    if os.path.islink(d + "-link"):
+        os.unlink(d + "-link")
     os.makedirs(d)
     path = os.path.join(d, f"p.{fmt}")
+    cwd = os.getcwd()
+    try:
+        return _run_case_in(case, d, path, style)
+    finally:
+        os.chdir(cwd)
+        if os.path.islink(d + "-link"):
+            os.unlink(d + "-link")
+
+
+def _run_case_in(case, d, path, style):
+    fmt, sname, mname, mdata, bname, bdata, main_tree, bak_tree = case[:8]
     if mdata is not None:
         with open(path, "wb") as fh:
             fh.write(mdata)
     if bdata is not None:
         with open(path + ".bak", "wb") as fh:
             fh.write(bdata)
-    replay = {"kind": "damage", "check": PROP, "case": [fmt, sname, mname, bname]}
-    gw = make_gateway(path, [])
+    replay = {"kind": "damage", "check": PROP, "case": [fmt, sname, mname, bname, style]}
+    cfg_path = path
+    if style == "relative":
+        # the library default ("mysensors.pickle") and the README examples are relative paths
+        os.chdir(d)
+        cfg_path = f"p.{fmt}"
+    elif style == "symlink":
+        os.symlink(d, d + "-link")
+        cfg_path = os.path.join(d + "-link", f"p.{fmt}")
+    gw = make_gateway(cfg_path, [])
     mclass = mname.rstrip("0123456789")
-    bclass = bname.rstrip("0123456789")
+    bclass = bname.rstrip("0123456789") + ("" if style == "absolute" else f"|path={style}")
     try:
         gw.start_persistence()
     except Exception as exc:  # pylint: disable=broad-except
@@ -83,7 +106,7 @@ def run_case(case):
 def _work(chunk):
     out = []
     for case in chunk:
-        out.append((case[:3] + (case[4],), run_case(case)))
+        out.append((case[:3] + (case[4],) + ((case[8],) if len(case) > 8 else ()), run_case(case)))
     cleanup_process_scratch()
     return out
 
@@ -106,9 +129,16 @@ def build_cases(tier, only=None):
                 baks = [("absent", None)] + [b for b in baks if b[0] != "missing"]
             for mname, md in mains:
                 for bname, bd in baks:
-                    if only and (fmt, sname, mname, bname) != only:
+                    if only and (fmt, sname, mname, bname) != tuple(only[:4]):
                         continue
                     cases.append((fmt, sname, mname, md, bname, bd, mtree, btree))
+            # configuration dimension: how the persistence file is named (relative path, symlinked directory)
+            for style in ("relative", "symlink"):
+                for mname, md in [m for m in mains if m[0] in ("missing", "intact", "zero", "trunc0", "trunc1") or m[0] == f"trunc{len(mdata) // 2}"]:
+                    for bname, bd in [b for b in baks if b[0] in ("absent", "intact", "zero", "trunc0")]:
+                        if only and ((fmt, sname, mname, bname) != tuple(only[:4]) or (len(only) > 4 and only[4] != style)):
+                            continue
+                        cases.append((fmt, sname, mname, md, bname, bd, mtree, btree, style))
     cleanup_process_scratch()
     return cases, sizes
 
@@ -149,6 +179,10 @@ def replay_case(ident, tier="thorough"):
     cases, _ = build_cases("thorough", only=tuple(ident))
     if not cases:
         cases, _ = build_cases("quick", only=tuple(ident))
+    if len(ident) > 4:
+        cases = [c for c in cases if (c[8] if len(c) > 8 else "absolute") == ident[4]]
+    else:
+        cases = [c for c in cases if len(c) == 8]
     out = []
     for case in cases:
         out.extend(run_case(case))
